@@ -188,3 +188,35 @@ def shared_writes(repo, functions=None):
                 if isinstance(a0, ast.Name) and (a0.id in repo.classes or a0.id == 'cls'):
                     out.append(Write(fi, c, 'setattr', ('class', a0.id), norm(a0), c.args[2] if len(c.args) > 2 else None))
     return out
+
+
+MUTATORS = {'clear', 'update', 'pop', 'popitem', 'setdefault', 'append', 'extend', 'insert', 'remove', 'add', 'discard', 'sort', 'reverse', '__setitem__', '__delitem__'}
+
+
+def class_mutables_via_self(repo):
+    """per-instance state that lives in a class-level mutable object: class attribute initialised with a mutable display /
+    constructor ({} [] set() dict() list() ...), never assigned on the instance (self.<attr> = ...) anywhere in the class family, and
+    mutated through self.<attr> (item store / delete / mutating method).  Such an object is shared by all instances (and threads)."""
+    out = []
+    for cname, ci in repo.classes.items():
+        for attr, init in ci.attrs.items():
+            mutable = isinstance(init, (ast.Dict, ast.List, ast.Set)) or (isinstance(init, ast.Call) and unparse(init.func) in ('dict', 'list', 'set', 'collections.OrderedDict', 'OrderedDict', 'collections.defaultdict', 'defaultdict'))
+            if not mutable:
+                continue
+            family = [c for c in repo.classes if cname in repo.mro(c)]
+            methods = [m for c in family for m in list(repo.classes[c].methods.values()) + list(repo.classes[c].ayns.values())]
+            assigned = False
+            muts = []
+            for fi in methods:
+                for n in ast.walk(fi.node):
+                    if isinstance(n, ast.Attribute) and isinstance(n.value, ast.Name) and n.value.id == 'self' and n.attr == attr:
+                        par = getattr(n, '_parent', None)
+                        if isinstance(n.ctx, ast.Store) and isinstance(par, (ast.Assign, ast.AnnAssign, ast.AugAssign)):
+                            assigned = True
+                        elif isinstance(par, ast.Subscript) and par.value is n and isinstance(par.ctx, (ast.Store, ast.Del)):
+                            muts.append((fi, par))
+                        elif isinstance(par, ast.Attribute) and par.value is n and par.attr in MUTATORS and isinstance(getattr(par, '_parent', None), ast.Call) and par._parent.func is par:
+                            muts.append((fi, par._parent))
+            if muts and not assigned:
+                out.append((cname, attr, muts))
+    return out
